@@ -742,6 +742,7 @@ pub fn trace(case: &Case, instr: &Instr, out: &Outcome) -> Vec<Value> {
     }));
     // events
     let mut first_trial: Option<f64> = None;
+    let mut first_trial_unobservable = false;
     let mut n_plain_ode = 0usize;
     // step size of the previous callback's interpolant (for the "equal steps" flag of BDF)
     let mut prev_h_of: Vec<Option<f64>> = vec![None; log.len()];
@@ -818,8 +819,12 @@ pub fn trace(case: &Case, instr: &Instr, out: &Outcome) -> Vec<Value> {
             Ev::Jac { t } => lines.push(json!({"e": "jac", "r": rk.rank(*t)})),
             Ev::Evt { t } => lines.push(json!({"e": "ev", "r": rk.rank(*t)})),
             // decision points of the solver's main loop (values classified here: the trace carries no floats)
-            Ev::Hook { tag, v } => lines.push(json!({"e": "hk", "t": tag, "small": *v < 0.001, "ge1": *v >= 1.0, "le1": *v <= 1.0,
-                                                     "n": if v.is_finite() && v.fract() == 0.0 && v.abs() < 1e9 { *v as i64 } else { -1 }})),
+            Ev::Hook { tag, v } => {
+                // a first trial whose factorisation failed evaluated nothing: the evaluations that follow belong to a later trial
+                if n_plain_ode < 2 && (*tag == "lu_sing" || *tag == "bdf_lu_sing") { first_trial_unobservable = true; }
+                lines.push(json!({"e": "hk", "t": tag, "small": *v < 0.001, "ge1": *v >= 1.0, "le1": *v <= 1.0,
+                                                     "n": if v.is_finite() && v.fract() == 0.0 && v.abs() < 1e9 { *v as i64 } else { -1 }}))
+            }
             Ev::Cb { k, xold, x, x_in, y, interp, ret } => {
                 let contig = contig_of[idx];
                 let prev_h = prev_h_of[idx];
@@ -841,7 +846,7 @@ pub fn trace(case: &Case, instr: &Instr, out: &Outcome) -> Vec<Value> {
     // the clause only speaks about a first_step not larger than max_step or the span
     let script_at0 = case.script.iter().any(|s| s.k == 0);
     let fs_applicable = !script_at0 && case.first_step.map(|h0| h0.abs() <= (case.xend - case.x0).abs() && case.max_step.map(|m| h0.abs() <= m.abs()).unwrap_or(true)).unwrap_or(false);
-    let fs_fact = match (case.first_step.filter(|_| fs_applicable), first_trial) {
+    let fs_fact = match (case.first_step.filter(|_| fs_applicable && !first_trial_unobservable), first_trial) {
         (Some(h0), Some(t)) => {
             let want = case.x0 + c2_of(&case.method) * h0.abs() * dir;
             json!({"has": true, "ok": (t - want).abs() <= ulps(want.abs().max(case.x0.abs()), 4.0)})
